@@ -152,6 +152,11 @@ def _fixed_jobs(rng, tier):
                 job = G.make_job(lang, "phrase", s1, g.rels, set(g.tags) | {"grown-after"}, None, True, extra_ops=extra, root=root)
                 jobs.append(job)
 
+    # coordinated subjects realized AFTER the words that agree with them (first realization of the object)
+    for lang in ("fr", "en"):
+        for _ in range(50 if tier == "quick" else 500):
+            jobs.append(tree_job(lang, "phrase", lambda g: g.postverbal()))
+
     # pronominalization, French passive, pronoun case options: outside the store model's options -> oracle only
     for lang in ("fr", "en"):
         for _ in range(40 if tier == "quick" else 400):
@@ -177,7 +182,9 @@ def _fixed_jobs(rng, tier):
                     g.rel(subj, subj, "pro", tags=["subject"])
                 g.rel(v, ctrl, "verb")
             s = g.P("S", [subj, g.P("VP", [v, obj])])
-            jobs.append(G.make_job(lang, "phrase", s, g.rels, set(g.tags) | {"pro"}, None, False))
+            job = G.make_job(lang, "phrase", s, g.rels, set(g.tags) | {"pro"}, None, False)
+            job["switch"] = True       # also: the other language current at realization, same text expected
+            jobs.append(job)
     for _ in range(30 if tier == "quick" else 300):
         g = G.Gen(rng, "fr")
         subj, ctrl = g.np(1, rel_ok=False)
